@@ -177,6 +177,10 @@ type c22World struct {
 	gateReached chan struct{}
 	gateRelease chan struct{}
 
+	lockGateArmed   bool
+	lockGateReached chan struct{}
+	lockGateRelease chan struct{}
+
 	fails []string
 }
 
@@ -199,6 +203,14 @@ func (w *c22World) hook(name string, a, b uint64) uint64 {
 		w.events = append(w.events, c22Ev{name, a, b, g})
 	}
 	switch name {
+	case "cluster.mric.locked":
+		// lock-order probe: the completion handler is held here, INSIDE the job mutex, while the
+		// controller lets an abort take the cluster mutex and reach for the job mutex
+		if w.lockGateArmed {
+			w.lockGateArmed = false
+			close(w.lockGateReached)
+			wait = w.lockGateRelease
+		}
 	case "cluster.hna.enter":
 		w.inHNA = true
 		w.curJob = 0
@@ -391,6 +403,36 @@ func (w *c22World) abort() {
 	if err := w.cc.completeCurrentJob(resizeJobStateAborted); err != nil {
 		w.step("  -> " + err.Error())
 	}
+}
+
+// abortAsync runs ResizeAbort's completeCurrentJob in its own goroutine, tracked like a delivery so
+// that final() reports it when it never returns.
+func (w *c22World) abortAsync() *c22Delivery {
+	d := &c22Delivery{Desc: "abort (concurrent)", job: -1}
+	w.step("abort (in its own goroutine)")
+	w.mu.Lock()
+	for id := range w.running {
+		w.jobs[id].abortSent = true
+	}
+	w.deliveries = append(w.deliveries, d)
+	w.mu.Unlock()
+	started := make(chan struct{})
+	go func() {
+		g := c22Goid()
+		w.mu.Lock()
+		d.goid = g
+		w.mu.Unlock()
+		close(started)
+		err := w.cc.completeCurrentJob(resizeJobStateAborted)
+		w.mu.Lock()
+		if err != nil {
+			d.ret = err.Error()
+		}
+		d.done = true
+		w.mu.Unlock()
+	}()
+	<-started
+	return d
 }
 
 // deliver calls the real handler in its own goroutine.
@@ -704,6 +746,7 @@ var c22Hazards = []string{
 	"none", "dup-success-early", "late-success", "first-error", "success-after-error", "abort-idle", "second-join-queued", "leave-while-resizing",
 	"error-after-error", "late-error-after-done", "late-error-after-abort", "unknown-job-success", "unknown-job-error",
 	"abort-running", "abort-in-window", "dup-success-in-window", "send-failure", "send-failure-then-join",
+	"abort-vs-completion-in-job-mutex",
 }
 
 // c22Run executes one scenario. hazard selects the hostile event; pos picks
@@ -790,6 +833,37 @@ func c22Run(r *vk.Run, id string, rng *vk.Rand, hazard string, action string, n 
 		case hazard == "abort-running" && !injected && (last || rng.Chance(1, 2)):
 			injected = true
 			w.abort()
+		case hazard == "abort-vs-completion-in-job-mutex" && !injected:
+			// a completion is being handled (it holds the job mutex) at the moment an abort arrives:
+			// the abort takes the cluster mutex and then needs the job mutex. Both must still finish.
+			injected = true
+			w.mu.Lock()
+			w.lockGateArmed = true
+			w.lockGateReached = make(chan struct{})
+			w.lockGateRelease = make(chan struct{})
+			reached, release := w.lockGateReached, w.lockGateRelease
+			w.mu.Unlock()
+			w.deliver(job, node, "", "success (held inside the job mutex)")
+			select {
+			case <-reached:
+				ad := w.abortAsync()
+				// wait until the abort is parked on the job mutex (or already through)
+				for spin := 0; spin < 4000; spin++ {
+					w.mu.Lock()
+					done, gid := ad.done, ad.goid
+					w.mu.Unlock()
+					if done {
+						break
+					}
+					if g, ok := c22Goroutines()[gid]; ok && c22Blocked(g.state) {
+						break
+					}
+					time.Sleep(50 * time.Microsecond)
+				}
+				close(release)
+			case <-time.After(30 * time.Second):
+				r.T.Fatalf("harness watchdog: completion never reached the job mutex in %s", id)
+			}
 		case hazard == "first-error" && !injected:
 			injected = true
 			w.deliver(job, node, "disk full", "error")
